@@ -157,6 +157,16 @@ def toCmdWord : Sx → Option Word
   | .list [.atom "single", w] => toWord w
   | w => toWord w
 
+/-- every simple-command node of a tree with the expansion modes of its words (`true` = `(single w)`,
+    i.e. `ExpansionMode::Single`); the words of a tree contain no nested command trees -/
+partial def sxSimpleModes : Sx → List (List Word × List Bool)
+  | .list [.atom "sc", .list _, .list ws, .list _] =>
+    match ws.mapM toCmdWord with
+    | some words => [(words, ws.map fun | .list [.atom "single", _] => true | _ => false)]
+    | none => []
+  | .list xs => (xs.map sxSimpleModes).flatten
+  | _ => []
+
 def toSimple : Sx → Option SimpleCommand
   | .list [.atom "sc", .list as, .list ws, .list rs] => do
     pure ⟨← as.mapM toAssign, ← ws.mapM toCmdWord, ← rs.mapM toRedir⟩
